@@ -311,6 +311,8 @@ class Check(PropertyCheck):
                 "errors": [e[0] + ": " + e[1] for e in w.errors]}
 
     def impl(self, case):
+        if case.get("kind") == "pyv6":       # tie of the CPython writer transcription (Model.C21.textV6Py)
+            return {"text_hex": hx(str(ipaddress.IPv6Address(unhx(case["addr_hex"]))).encode())}
         data = unhx(case["data_hex"])
         segs = segments(data, case.get("cuts") or [])
         eof = ["X"] if case.get("eof") else []
@@ -401,6 +403,10 @@ class Check(PropertyCheck):
         return len(host) == len(raw) and all((chr(b) == ch) if b < 0x80 else (ord(ch) >= 0x80) for b, ch in zip(raw, host))
 
     def oracle(self, case, obs):
+        if case.get("kind") == "pyv6":
+            # no clause of C21 speaks about CPython's writer; sanity only: the text denotes the same address
+            ok = ipaddress.IPv6Address(unhx(obs["text_hex"]).decode()) == ipaddress.IPv6Address(unhx(case["addr_hex"]))
+            return [] if ok else ["str(IPv6Address) does not read back"]
         fails = []
         for k in ("whole", "seg", "async"):
             if obs[k]["errors"]:
@@ -503,6 +509,8 @@ class Check(PropertyCheck):
         return f"{case['auth']} {pol} {case['eager']} {case['conn_ok']}"
 
     def model_lines(self, case):
+        if case.get("kind") == "pyv6":
+            return ["pyv6 " + case["addr_hex"]]
         data = unhx(case["data_hex"])
         segs = segments(data, case.get("cuts") or [])
         env = self.env_fields(case)
@@ -531,9 +539,13 @@ class Check(PropertyCheck):
         return {"phase": phase, "toks": rest, "addr": addr, "child_started": child_started}
 
     def model_obs(self, case, replies):
+        if case.get("kind") == "pyv6":
+            return replies[0]
         return [self._parse_reply(r) for r in replies]
 
     def impl_view(self, case, obs):
+        if case.get("kind") == "pyv6":
+            return obs["text_hex"]
         out = []
         for k in ("whole", "seg", "async"):
             o = obs[k]
@@ -543,9 +555,14 @@ class Check(PropertyCheck):
 
     # ------------------------------------------------------------------ evidence
     def classify(self, case, obs):
+        if case.get("kind") == "pyv6":
+            return ("pyv6", case["addr_hex"])
         return None if case["data_hex"] == "-" else case
 
     def branches(self, case, obs):
+        if case.get("kind") == "pyv6":
+            t = unhx(obs["text_hex"]).decode()
+            return ["pyv6:" + ("compressed" if "::" in t else "full")]
         ref = self.reference(case)
         o = self.outcome(obs["whole"])
         out = ["ref:" + ref["kind"] + (":" + ref["stage"] if ref["kind"] == "reject" else ""),
@@ -570,6 +587,8 @@ class Check(PropertyCheck):
         return out
 
     def describe(self, case, obs):
+        if case.get("kind") == "pyv6":
+            return {"case": case, "impl": obs}
         return {"case": case, "impl": obs["whole"]}
 
     # ------------------------------------------------------------------ generation
@@ -816,7 +835,7 @@ class Check(PropertyCheck):
                     "truth": {"atyp": atyp, "addr_hex": hx(addr), "port": port, "trail_hex": hx(trail), "user_hex": "-", "pass_hex": "-"}}
             yield base
 
-    def generate(self, rng, tier):
+    def gen_main(self, rng, tier):
         # round-robin so that every budget sees the same mix: grammar/mutation/raw, size classes, small-scope, truncation
         subs = [self.gen_random(rng, tier), self.gen_small(rng, tier), self.gen_canon(rng, tier), self.gen_sizes(rng, tier),
                 self.gen_hosts(rng, tier)]
@@ -830,7 +849,31 @@ class Check(PropertyCheck):
                 except StopIteration:
                     alive[k] = False
 
+    def gen_pyv6(self):
+        """addresses for the CPython-writer tie: every zero/non-zero pattern of the 8 words, embedded-IPv4 look-alikes,
+        every hex width; own PRNG so that the main case stream of a seed is unchanged"""
+        from common.prng import Rng
+        r = Rng(2105)
+        wv = [1, 0xf, 0x10, 0xff, 0x100, 0xfff, 0x1000, 0xffff, 0xabcd, 0x0a00]
+        for m in range(256):
+            yield b"".join((r.pick(wv) if (m >> i) & 1 else 0).to_bytes(2, "big") for i in range(8))
+        for tail in (b"\x01\x02\x03\x04", b"\x00\x00\x00\x05", b"\x00\x01\x00\x00", b"\xff\xff\xff\xff"):
+            yield bytes(10) + b"\xff\xff" + tail
+            yield bytes(12) + tail
+            yield bytes(8) + b"\xff\xff\x00\x00" + tail
+        while True:
+            yield bytes(r.pick([0, 0, 0, 1, 0xff, r.getrandbits(8)]) for _ in range(16))
+
+    def generate(self, rng, tier):
+        py = self.gen_pyv6()
+        for n, case in enumerate(self.gen_main(rng, tier)):
+            yield case
+            if n % 8 == 7:
+                yield {"kind": "pyv6", "addr_hex": hx(next(py))}
+
     def neighbours(self, case, rng):
+        if case.get("kind") == "pyv6":
+            return
         d = unhx(case["data_hex"])
         for i in range(len(d)):
             for v in (0, 1, 2, 3, 4, 5, 0xFF):
@@ -850,6 +893,8 @@ class Check(PropertyCheck):
                     yield from self.variants(rng, base, bytes(t), "quick", 0)
 
     def shrink_candidates(self, case):
+        if case.get("kind") == "pyv6":
+            return
         from common.check import generic_shrink
         for c in generic_shrink({k: v for k, v in case.items() if k != "truth"}):
             n = len(unhx(c["data_hex"]))
